@@ -18,12 +18,20 @@ pub fn rt(t: u8) -> RecordType {
 /// terminators, and noise. `compliant`: streams in role order; otherwise records are shuffled
 /// by type (C18 histories).
 pub fn stream_records(cx: &mut Ctx, out: &mut Vec<Rec>, id: u16, role: u16, noise_num: u32, noise_pair_max: usize, compliant: bool, phase: Phase) {
+    stream_records_opts(cx, out, id, role, noise_num, noise_pair_max, compliant, phase, true)
+}
+
+/// `allow_scale`: whether the rare very long streams may be generated (not on connections that are long already).
+#[allow(clippy::too_many_arguments)]
+pub fn stream_records_opts(cx: &mut Ctx, out: &mut Vec<Rec>, id: u16, role: u16, noise_num: u32, noise_pair_max: usize, compliant: bool, phase: Phase, allow_scale: bool) {
     let streams = role_streams(role);
     let mut groups: Vec<Vec<Rec>> = Vec::new();
     for (i, &s) in streams.iter().enumerate() {
         // scale: one stream in ~400 is either long (1..2 MiB in maximum-size records) or consists of very many
         // (8000..30000) tiny records - counters and offsets that creep with every record or byte
-        let scale = if compliant && phase == Phase::Stream && cx.ch.chance(1, 400) { 1 + cx.ch.pick(2) } else { 0 }; // (sync stream scenario only: a simulated connection would need millions of scheduler steps)
+        // (the many-tiny-records variant only in the sync stream scenario: a simulated connection would need millions of
+        // scheduler steps for it; the long-stream variant, in maximum-size records, also on simulated connections)
+        let scale = if !allow_scale { 0 } else if compliant && phase == Phase::Stream && cx.ch.chance(1, 400) { 1 + cx.ch.pick(2) } else if compliant && phase == Phase::Either && cx.ch.chance(1, 500) { 1 } else { 0 };
         let total = if scale == 1 { cx.probe("stream_over_1mib"); cx.ch.range(1 << 20, 2 << 20) } else if scale == 2 { cx.probe("stream_of_8000plus_records"); cx.ch.range(40_000, 150_000) } else { match cx.ch.weighted(&[6, 12, 9, 1]) {
             0 => 0,
             1 => cx.ch.range(1, 64),
@@ -646,7 +654,7 @@ pub fn handoff<'c>(
     style: Style,
     expect_out: &[u8],
 ) -> Result<(stream::Parser<'c>, Vec<u8>), Violation> {
-    let opts = DriveOpts { style, cap, check_nonempty: true, replies: Some(expect_out.to_vec()) };
+    let opts = DriveOpts { style, cap, check_nonempty: true, replies: Some(expect_out.to_vec()), done_by: None };
     let d = drive_request(cx, &mut rp, wire, pos, &opts, "c04_reply_stream")?;
     vcheck!(d.done, "c01_not_done", "request parser did not finish a complete preamble (fed {})", d.fed);
     vcheck!(d.output == expect_out, "c04_reply_stream", "preamble replies {} expected {}", hex(&d.output), hex(expect_out));
@@ -1005,7 +1013,7 @@ pub fn c05(cx: &mut Ctx) -> VResult {
     }
     // after the last request: the request parser holds exactly the unread suffix
     let tail = wire.len();
-    let opts = DriveOpts { style, cap: tail, check_nonempty: true, replies: None };
+    let opts = DriveOpts { style, cap: tail, check_nonempty: true, replies: None, done_by: None };
     let d = drive_request(cx, &mut rp, &wire, &mut pos, &opts, "c05_chain")?;
     let pm = model::preamble(&wire, model_start, max_conns);
     vcheck!(!d.done || !matches!(pm.outcome, PreOutcome::Incomplete), "c05_chain", "request parser finished on leftover records that contain no request");
@@ -1082,7 +1090,7 @@ pub fn c11_sync(cx: &mut Ctx) -> VResult {
     let a = sm.abort.expect("model abort");
     let pm2 = model::preamble(&wire, a, 4);
     let PreOutcome::Done(info2) = &pm2.outcome else { panic!("harness: next request incomplete") };
-    let opts = DriveOpts { style, cap: wire.len(), check_nonempty: true, replies: Some(model::concat_replies(&pm2.replies)) };
+    let opts = DriveOpts { style, cap: wire.len(), check_nonempty: true, replies: Some(model::concat_replies(&pm2.replies)), done_by: None };
     let dr = drive_request(cx, &mut rp, &wire, &mut pos, &opts, "c11_next_request")?;
     vcheck!(dr.done, "c11_next_request", "next request not parsed after an aborted one");
     match guard(move || rp.into_request()) {
